@@ -525,7 +525,21 @@ def _false_branch(f, ifnode):
             idx = [i for i, s in enumerate(seq) if s is ifnode][0]
             if ifnode.body and isinstance(ifnode.body[-1], (ast.Return,
                                                             ast.Raise)):
-                return seq[idx + 1:], "fallthrough"
+                rest = list(seq[idx + 1:])
+                # last statement of an enclosing `if` without else: control
+                # falls out of that one too
+                cur, up = ifnode, p
+                while not rest and isinstance(up, ast.If) and \
+                        not up.orelse and up.body and up.body[-1] is cur:
+                    cur, up = up, parent(up)
+                    for fld2 in ("body", "orelse", "finalbody"):
+                        seq2 = getattr(up, fld2, None)
+                        if isinstance(seq2, list) and any(
+                                s is cur for s in seq2):
+                            i2 = [i for i, s in enumerate(seq2)
+                                  if s is cur][0]
+                            rest = list(seq2[i2 + 1:])
+                return rest, "fallthrough"
             targets = set()
             for st in ifnode.body:
                 if isinstance(st, ast.Assign):
